@@ -49,6 +49,7 @@ pub fn run(cfg: &Config) -> i32 {
 		add(&mut total, pf::fam_valid_token_docs(cfg, flags, if thorough { 8 } else { 7 }));
 		add(&mut total, pf::fam_unicode_sweep(cfg, flags));
 		add(&mut total, pf::fam_block_boundaries(cfg, flags));
+		add(&mut total, pf::fam_long_strings(cfg, flags, if cfg.san { 300 } else { 2300 }));
 		deep(cfg, &mut total, thorough);
 	}
 
